@@ -149,6 +149,9 @@ mod spacelike;
 mod staticfiles;
 mod template;
 mod templateexpression;
+#[cfg(feature = "verif-hooks")]
+#[doc(hidden)]
+pub mod verif_hooks;
 
 use parseresult::show_errors;
 use std::env;
